@@ -24,7 +24,12 @@ func vhSetup(flags int) vx.Coro {
 	} else {
 		vx.UseStore(sqlite.VXWorker(vx.DB("sqlite")))
 	}
+	// every other numeric setting is arbitrary within its admissible range (1..1000): no coroutine may let the
+	// pool or kernel batch sizes decide what it reads or writes
+	cms, sbs, cbs := vx.Int("config.coroutineMaxSize"), vx.Int("config.submissionBatchSize"), vx.Int("config.completionBatchSize")
+	vx.Assume(vx.And(cms >= 1, cms <= 1000, sbs >= 1, sbs <= 1000, cbs >= 1, cbs <= 1000))
 	vx.SetConfig(&system.Config{Url: vx.String("config.url"), PromiseBatchSize: vx.Opt("batch", 2), ScheduleBatchSize: vx.Opt("batch", 2),
+		CoroutineMaxSize: cms, SubmissionBatchSize: sbs, CompletionBatchSize: cbs,
 		TaskBatchSize: vx.Opt("batch", 2), TaskEnqueueDelay: vx.DurationMs("config.taskEnqueueDelay", 0, 1<<32), SignalTimeout: vx.DurationMs("config.signalTimeout", 0, 1<<32)})
 	vx.AutoO2("O2")
 	if vx.Opt("warm", 0) == 1 {
